@@ -7,6 +7,8 @@ from collections import Counter
 from .. import gen
 from ..probes import FAULT_TYPES
 from ..tools import run_sync_side, run_async_side, Fault, TOOLS
+from ..loop import CTX, drive, Suspend
+import asyncstdlib as A
 
 ID = "C06"
 LEVEL = "fault_enumeration"
@@ -21,20 +23,33 @@ RULE = ("for each call spec (all iterator tools, groupby operation sequences and
         "distinct = (spec, flavours, probe, k, exception type)")
 RULE += (" Also: fault types KeyError/IndexError/AssertionError and instances of Exception/BaseException themselves; a fault planted in a callable call or item pull that the counterpart performs and the library skips (with a differing outcome) is reported; the probes' aclose() returns a truthy value.")
 RULE += (' Also: a source whose plain (non-async) __anext__ fails when called.')
+RULE += (' Also: builtin callables handing back awaitables (abs, operator.getitem, deque.popleft) against the same builtin behind a lambda, every failing position; class callables.')
 ASSUMPTIONS = ["Stop(Async)Iteration / IndexError are never injected (their meaning is the language's, not the library's)",
                "closing a faulted source is release, not use"]
 EXHAUSTIVE = {"quick": False, "thorough": False}
 
 N_SPECS = {"quick": 40000, "thorough": 1500000}
 SRC_FL = ["async_class", "async_gen", "sync_iter", "sync_gen", "getitem_seq", "async_class_bare", "async_iterable", "sync_iterable", "async_class_plainnext"]
-FN_FL = ["def", "async_def", "callobj", "partial", "awaitobj"]
+FN_FL = ["def", "async_def", "callobj", "partial", "awaitobj", "classobj"]
 EXC = ["Injected", "TypeError", "ValueError", "LookupError", "InjectedBase", "RuntimeError", "AttributeError", "KeyError",
        "IndexError", "AssertionError", "Exception", "BaseException"]
+
+
+BUILTIN_TOOLS = ["map", "filter", "filterfalse", "takewhile", "dropwhile", "max_key", "min_key", "sorted_key",
+                 "groupby_key", "starmap", "iter_popleft", "reduce_getitem", "any_map", "nlargest_key"]
 
 
 def cases(tier, seed, shard, nshards):
     from . import C16
     rng = random.Random(f"C06-{seed}-{shard}")
+    kb = 0
+    for tool in BUILTIN_TOOLS:
+        for n in (1, 2, 3, 4):
+            for k in range(1, n + 2):
+                for exc in (["Injected", "TypeError", "KeyError", "InjectedBase"] if tier == "quick" else EXC):
+                    kb += 1
+                    if kb % nshards == shard:
+                        yield {"kind": "builtin_callable", "tool": tool, "n": n, "k": k, "exc": exc, "susp": kb % 2}
     n16 = 0
     for gb in C16.cases(tier, seed, shard, nshards):
         n16 += 1
@@ -112,7 +127,107 @@ def run_groupby(case, stats):
     return {"violations": viols, "evals": max(1, evals), "sigs": sigs}
 
 
+def run_builtin_callable(case, stats):
+    """The callable is a BUILTIN (C implemented: ``abs``, ``operator.getitem``, a bound ``deque.popleft``) that hands
+    back awaitables - neither ``def`` nor ``async def``, and not a class.  The awaitable of its k-th call fails: the
+    outcome is the one of an equivalent ``lambda`` wrapping the very same builtin."""
+    import collections
+    import operator
+    from ..probes import FAULT_TYPES
+    tool, n, k = case["tool"], case["n"], case["k"]
+
+    def scenario(wrap):
+        CTX.reset()
+        boom = FAULT_TYPES[case["exc"]]("the awaitable of a builtin's result failed")
+        log = []
+
+        async def work(i):
+            log.append(("start", i))
+            if case["susp"]:
+                await Suspend(("work", i), 1)
+            if i + 1 == k:
+                raise boom
+            log.append(("done", i))
+            return [1, 0, 2, 1][i % 4] if tool != "reduce_getitem" else Holder(i + 1)
+
+        class Holder:
+            def __init__(self, i):
+                self.i = i
+
+            def __abs__(self):
+                return work(self.i)
+
+            def __getitem__(self, other):
+                return work(self.i)
+
+        xs = [Holder(i) for i in range(n)]
+        f_abs = abs if not wrap else (lambda x: abs(x))
+        f_get = operator.getitem if not wrap else (lambda a, b: operator.getitem(a, b))
+
+        async def main():
+            if tool == "map":
+                return [x async for x in A.map(f_abs, xs)]
+            if tool == "any_map":
+                return await A.any(A.map(f_abs, xs))
+            if tool == "filter":
+                return [x.i async for x in A.filter(f_abs, xs)]
+            if tool == "filterfalse":
+                return [x.i async for x in A.filterfalse(f_abs, xs)]
+            if tool == "takewhile":
+                return [x.i async for x in A.takewhile(f_abs, xs)]
+            if tool == "dropwhile":
+                return [x.i async for x in A.dropwhile(f_abs, xs)]
+            if tool == "max_key":
+                return (await A.max(xs, key=f_abs)).i
+            if tool == "min_key":
+                return (await A.min(xs, key=f_abs)).i
+            if tool == "sorted_key":
+                return [x.i for x in await A.sorted(xs, key=f_abs)]
+            if tool == "nlargest_key":
+                return [x.i for x in await A.nlargest(xs, 2, key=f_abs)]
+            if tool == "groupby_key":
+                return [(key, [x.i async for x in grp]) async for key, grp in A.groupby(xs, key=f_abs)]
+            if tool == "starmap":
+                return [x async for x in A.starmap(f_abs, [(x,) for x in xs])]
+            if tool == "reduce_getitem":
+                return (await A.reduce(f_get, xs, Holder(0))).i
+            if tool == "iter_popleft":
+                queue = collections.deque(work(i) for i in range(n))
+                queue.append(_done())
+                pop = queue.popleft if not wrap else (lambda: queue.popleft())
+                try:
+                    return [x async for x in A.iter(pop, "done")]
+                finally:
+                    for c in queue:
+                        c.close()
+            raise ValueError(tool)
+
+        async def _done():
+            return "done"
+
+        try:
+            out = ("ok", drive(main()))
+        except BaseException as exc:  # noqa: BLE001
+            out = ("raise", type(exc).__name__, exc is boom)
+        return out, log, list(CTX.foreign)
+
+    base = scenario(True)
+    got = scenario(False)
+    viols = []
+    stats["builtin_callable_runs"] += 1
+    if base[0][0] == "raise" and not base[0][2] and k <= n:
+        stats["builtin_callable_baseline_did_not_surface_the_fault"] += 1
+    if got != base:
+        key = "exception-swallowed" if base[0][0] == "raise" and got[0][0] == "ok" else "builtin-callable-differs"
+        viols.append({"key": f"{tool}/{key}",
+                      "msg": f"{tool} with a builtin callable returning awaitables, n={n}, the {k}-th awaitable fails with "
+                             f"{case['exc']}: {got[0]} / {got[1]} vs the same builtin behind a lambda {base[0]} / {base[1]}"[:900]})
+    return {"violations": viols, "evals": 1, "sigs": [("builtin", tool, n, k, case["exc"])]}
+
+
 def run_case(case, stats: Counter):
+    if case.get("kind") == "builtin_callable":
+        return run_builtin_callable(case, stats)
     if case.get("kind") == "groupby":
         return run_groupby(case, stats)
     spec = case["spec"]
